@@ -1,6 +1,10 @@
 package rules
 
 import (
+	"go/constant"
+	"regexp"
+	"path/filepath"
+	"os"
 	"fmt"
 	"go/token"
 	"go/types"
@@ -76,6 +80,8 @@ func runC11(c *engine.Ctx) {
 	r4 := c.Rule("R4", "nil extension payload <-> nil map value, both directions", 2)
 	r5 := c.Rule("R5", "each extension codec's encoder builds the node kind its decoder consumes", 3)
 	r6 := c.Rule("R6", "framing: length prefix covers exactly the payload; decoder bounded by the maximum message size", 2)
+	r7 := c.Rule("R7", "every defined status code, request type and link action is a member of the corresponding enum of the wire schema (and vice versa)", 3)
+	c11SchemaEnums(c, r7)
 
 	toNet := c.P.Func("message/v2", "MessageHandler", "ToNet")
 	fromR := c.P.Func("message/v2", "MessageHandler", "FromMsgReader")
@@ -824,5 +830,99 @@ func c11Framing(c *engine.Ctx, rule string, toNet *ssa.Function) {
 	}
 	if n == 0 {
 		c.Violate(rule, "decoder|bounded-reader", token.NoPos, "no length-prefixed (msgio varint) reader is used for incoming messages")
+	}
+}
+
+// c11SchemaEnums (R7): bindnode refuses, on encode and on decode, an enum value that the embedded schema does not
+// list; a Go constant without a schema member (or the reverse) is a well-formed message that cannot make the round trip.
+func c11SchemaEnums(c *engine.Ctx, rule string) {
+	src, err := os.ReadFile(filepath.Join(c.P.Dir, "message", "ipldbind", "schema.ipldsch"))
+	if err != nil {
+		c.AnchorMissing(rule, "message/ipldbind/schema.ipldsch")
+		return
+	}
+	// parse `type X enum { | Name ("repr") ... }`
+	type member struct{ name, repr string }
+	enums := map[string][]member{}
+	cur := ""
+	reType := regexp.MustCompile(`^\s*type\s+(\w+)\s+enum\s*\{`)
+	reMem := regexp.MustCompile(`^\s*\|\s*(\w+)\s*(?:\(\s*"([^"]*)"\s*\))?`)
+	for _, line := range strings.Split(string(src), "\n") {
+		if i := strings.Index(line, "#"); i >= 0 {
+			line = line[:i]
+		}
+		if m := reType.FindStringSubmatch(line); m != nil {
+			cur = m[1]
+			enums[cur] = nil
+			continue
+		}
+		if cur == "" {
+			continue
+		}
+		if strings.Contains(line, "}") {
+			cur = ""
+			continue
+		}
+		if m := reMem.FindStringSubmatch(line); m != nil {
+			enums[cur] = append(enums[cur], member{m[1], m[2]})
+		}
+	}
+	root := c.P.TypesPkg("")
+	if root == nil {
+		c.AnchorMissing(rule, "the graphsync root package")
+		return
+	}
+	for _, e := range []struct{ goType, schemaEnum string }{
+		{"ResponseStatusCode", "GraphSyncResponseStatusCode"},
+		{"RequestType", "GraphSyncRequestType"},
+		{"LinkAction", "GraphSyncLinkAction"},
+	} {
+		tn, _ := root.Scope().Lookup(e.goType).(*types.TypeName)
+		mem, ok := enums[e.schemaEnum]
+		if tn == nil || !ok {
+			c.AnchorMissing(rule, "graphsync."+e.goType+" / schema enum "+e.schemaEnum)
+			continue
+		}
+		// Go side: the constant's value as the schema spells it (ints by representation, strings by member name)
+		goVals := map[string]string{}
+		for _, n := range root.Scope().Names() {
+			k, ok := root.Scope().Lookup(n).(*types.Const)
+			if !ok || !types.Identical(k.Type(), tn.Type()) {
+				continue
+			}
+			if k.Val().Kind() == constant.String {
+				goVals[constant.StringVal(k.Val())] = n
+			} else {
+				goVals[k.Val().ExactString()] = n
+			}
+		}
+		schemaVals := map[string]string{}
+		isInt := false
+		if b, ok := tn.Type().Underlying().(*types.Basic); ok && b.Info()&types.IsInteger != 0 {
+			isInt = true
+		}
+		for _, m := range mem {
+			if isInt {
+				schemaVals[m.repr] = m.name
+			} else {
+				schemaVals[m.name] = m.name
+			}
+		}
+		var missing, extra []string
+		for v, n := range goVals {
+			if _, ok := schemaVals[v]; !ok {
+				missing = append(missing, n+"="+v)
+			}
+		}
+		for v, n := range schemaVals {
+			if _, ok := goVals[v]; !ok {
+				extra = append(extra, n+"="+v)
+			}
+		}
+		sort.Strings(missing)
+		sort.Strings(extra)
+		c.Decide(rule, e.schemaEnum, tn.Pos(), len(missing) == 0 && len(extra) == 0 && len(goVals) > 0,
+			fmt.Sprintf("%d constants of graphsync.%s = %d members of schema enum %s", len(goVals), e.goType, len(mem), e.schemaEnum),
+			fmt.Sprintf("graphsync.%s and the wire schema's %s disagree (defined in Go but not in the schema: %v; in the schema but not in Go: %v): a message carrying such a value cannot be encoded or decoded", e.goType, e.schemaEnum, missing, extra))
 	}
 }
